@@ -90,6 +90,9 @@ def gen_wcfg(rng, stats, comp=None, small=True):
     else:
         minbs = None
         bs = rng.pick([0, 512, 1024, 1500, 4096, 8192])
+    if rng.chance(1, 12):
+        # block sizes that do not fit 32 bits (format v2 exists for them; the size is only a threshold, so this costs nothing)
+        bs = rng.pick([4294967295, 4294967296, 4294967296 + 4096, 1 << 40, (1 << 32) + 1024]); stats.bump("block_size_4GiB_and_more")
     ri = rng.pick([1, 1, 2, 2, 3, 4, 5, 8, 16, 20])
     pre = bytes(rng.below(256) for _ in range(rng.pick([0, 0, 1, 7, 100, 511, 512, 700]))) if rng.chance(1, 3) else b""
     stats.bump("comp=%d" % comp); stats.bump("level=" + ("default" if level == "d" else "explicit"))
@@ -391,9 +394,20 @@ def gen_table_case(rng, stats, mode="mixed", comp=None, small=True, nkeys=None, 
                 extra.append(gen_query_key(rng, adds))
         adds = extra
         stats.bump("tables_with_refusals")
-    effbs = max(bs, 16 if small else 1024)
-    for k in adds:
-        lines.append("w.add 1 %s %s" % (hx(k), hx(gen_val(rng, stats, effbs))))
+    effbs = max(min(bs, 8192), 16 if small else 1024)
+    # with a pool: a block that takes long to compress (tens of kilobytes of noise) followed at once by tiny blocks — the
+    # tiny ones are ready while the big one is still in flight, so only the ordered result queue keeps the file in order
+    inflight = bool(pool) and bs < 4096 and rng.chance(1, 3)
+    if inflight:
+        stats.bump("pooled_big_block_in_flight_then_tiny_blocks")
+    for ai, k in enumerate(adds):
+        if inflight and ai == min(1, len(adds) - 1):
+            v = bytes(rng.below(256) for _ in range(40000 + rng.below(30000)))
+        elif inflight:
+            v = bytes(rng.below(256) for _ in range(rng.below(5)))
+        else:
+            v = gen_val(rng, stats, effbs)
+        lines.append("w.add 1 %s %s" % (hx(k), hx(v)))
     lines.append("@f w.fin 1")
     lines.append("f.validate %s file=$f" % " ".join(a for a in cfg.split(" ") if not a.startswith(("level=", "pool="))))
     lines.append("w.prefix 1")
